@@ -1,6 +1,7 @@
 import JominiModel.Model.BinTape
 import JominiModel.Proofs.BinTape
 import JominiModel.Proofs.BinTapeEq
+import JominiModel.Proofs.BinTapeWf
 /-
 C03 — the binary tape mirrors the token stream; the fast paths are unobservable.
 Only property theorems live here; helper lemmas are in `Proofs/BinTape*.lean`.
@@ -93,5 +94,17 @@ theorem C03_fast_eq_reference (data : Bytes) : parse true data = parse false dat
 
 example : parse true [0x82, 0x2d, 0x01, 0x00, 0x0c, 0x00, 5, 0, 0, 0] = .ok [.token 0x2d82, .i32 5] := by
   rfl
+
+/-- **Containers are correctly delimited** (the clause C03 shares with C06): whenever either parser
+accepts — on any input whatsoever — the tape is a sequence of complete items: every `Array`/`Object`
+at index `i ≠ 0` carries the index `e > i` of its own `End`, which carries `i`, and containers are
+properly nested (`WfBinTape`, Proofs/BinTapeItems.lean; proved through the parser invariant
+`TInv`, Proofs/BinTapeInv.lean). -/
+theorem C03_delimited (opt : Bool) (data : Bytes) (toks : Tape) (h : parse opt data = .ok toks) :
+    WfBinTape toks :=
+  C06_bin_inv opt data toks h
+
+example : ∃ toks, parse true [0x82, 0x2d, 0x01, 0x00, 0x03, 0x00, 0x0c, 0x00, 5, 0, 0, 0, 0x04, 0x00] = .ok toks ∧
+    toks = [.token 0x2d82, .array 3, .i32 5, .end_ 1] := ⟨_, rfl, rfl⟩
 
 end Jomini.Props.C03
